@@ -183,6 +183,7 @@ fn variant_to_schema_expr(
                         variant_attrs.doc,
                         &variant_attrs.aliases,
                     )
+                    .map(|schema_expr| define_once(&name, schema_expr))
                 }
                 Fields::Unnamed(mut fields) if transparent_newtype && fields.unnamed.len() == 1 => {
                     check_fn(FieldInfo {
@@ -207,6 +208,7 @@ fn variant_to_schema_expr(
                         variant_attrs.doc,
                         &variant_attrs.aliases,
                     )
+                    .map(|schema_expr| define_once(&name, schema_expr))
                 }
                 Fields::Unit if unit_is_null => {
                     if !only_skip_rename_and_alias_can_be_set {
@@ -237,13 +239,32 @@ fn variant_to_schema_expr(
                     })
                     .map_err(|m| vec![syn::Error::new(variant_span, m)])?;
                     let name_expr = name_expr(&name);
-                    Ok(quote! {
-                        ::apache_avro::schema::Schema::record(#name_expr).build()
-                    })
+                    Ok(define_once(
+                        &name,
+                        quote! {
+                            ::apache_avro::schema::Schema::record(#name_expr).build()
+                        },
+                    ))
                 }
             }
         }
     }
+}
+
+/// The record of a variant is a named schema: like every other derived named schema it is defined
+/// where it is first needed and referenced by name afterwards, so that a type that is used more
+/// than once does not define the same name twice.
+fn define_once(name: &str, schema_expr: TokenStream) -> TokenStream {
+    let name_expr = name_expr(name);
+    quote! {{
+        let variant_name = #name_expr;
+        if named_schemas.contains(&variant_name) {
+            ::apache_avro::schema::Schema::Ref { name: variant_name }
+        } else {
+            named_schemas.insert(variant_name);
+            #schema_expr
+        }
+    }}
 }
 
 #[derive(Debug)]
